@@ -152,3 +152,68 @@ def explore(task):
             uniq.append(v)
     res["viol"] = uniq
     return res
+
+
+# ----------------------------------------------------------------------------- the shipped rail followed by another rail
+def stop_tasks(tier):
+    return [("stop", side, exc) for side in ("output", "input") for exc in (False, True)]
+
+
+def explore_stop(task):
+    """Colang 1.0: the shipped `self check input` / `self check output` rail (real action, scripted LLM as the checker)
+    is the FIRST of two configured rails, the second is a stub rail.  When the shipped rail blocks, no later rail runs,
+    the reply is the refusal (or the rail exception), and the log marks the shipped rail as the one that stopped."""
+    from vf.engines.world import World
+    _t, side, exceptions = task
+    res = {"worlds": 1, "turns": 0, "conversations": 0, "rejections": 0, "rewrites": 0, "selfcheck_worlds": 1, "viol": []}
+    second = "in2" if side == "input" else "out2"
+    colang = rw.v1_rail(second, side)
+    yaml = (f"rails:\n  {side}:\n    flows:\n      - self check {side}\n      - {second}\n" + PROMPTS + ("enable_rails_exceptions: True\n" if exceptions else ""))
+    tag = f"v1:shipped-self-check-{side}-followed-by-another-rail" + (":rails-exceptions" if exceptions else "")
+    info0 = {"engine": "E3-world", "prop": "C02", "part": "selfcheck-stop", "side": side, "exceptions": exceptions}
+    try:
+        w = World(colang, yaml)
+    except Exception as e:
+        res["viol"].append((f"world-rejected:{tag}", repr(e), info0))
+        return res
+    n = 0
+    for blocked in (False, True):
+        n += 1
+        res["conversations"] += 1
+        bot_text = f"s{n} answer " + (MARK if blocked and side == "output" else "fine")
+        user_text = f"s{n} question " + (MARK if blocked and side == "input" else "fine")
+
+        def llm_fn(task_name, prompt, i, bot_text=bot_text):
+            if "self_check" in str(task_name):
+                return "Yes" if MARK in prompt else "No"
+            return bot_text
+
+        turn = rw.run_turn(w, [{"role": "user", "content": user_text}], {second: "A"}, llm_fn, options={"log": {"activated_rails": True}})
+        res["turns"] += 1
+        info = dict(info0, blocked=blocked)
+        if turn.exc is not None:
+            res["viol"].append((f"generate-raised:{tag}", repr(turn.exc), info))
+            continue
+        later = [a["rail"] for a in turn.actions if a.get("rail") == second]
+        if blocked:
+            res["rejections"] += 1
+            if later:
+                res["viol"].append((f"{side}-rail-sequence:later-rail-ran-after-the-rejection:{tag}",
+                                    f"`self check {side}` blocked the message, yet the next configured rail {second} was invoked on it; reply {turn.text!r}", info))
+            want = (f"EXC:{side.capitalize()} not allowed. The {side} was blocked by the 'self check {side}' flow." if exceptions else REFUSAL)
+            if turn.text != want:
+                res["viol"].append((f"reply-is-not-the-refusal:{tag}", f"`self check {side}` blocked; reply {turn.text!r}, expected {want!r}", info))
+            log = getattr(turn.reply, "log", None)
+            ar = getattr(log, "activated_rails", None) or []
+            stops = [r.name for r in ar if r.stop and r.type == side]
+            if stops != [f"self check {side}"]:
+                res["viol"].append((f"log-stop-flag:{tag}", f"`self check {side}` blocked; the log marks {stops} as stopping ({[(r.type, r.name, r.stop) for r in ar if r.type == side]})", info))
+        elif later != [second]:
+            res["viol"].append((f"{side}-rail-sequence:{tag}", f"`self check {side}` approved; the next rail was invoked {later}", info))
+    seen, uniq = set(), []
+    for v in res["viol"]:
+        if v[0] not in seen:
+            seen.add(v[0])
+            uniq.append(v)
+    res["viol"] = uniq
+    return res
